@@ -12,6 +12,8 @@ What is extracted (vocabulary: lean/Generated/Schema.lean):
                  against GraphMachine / HierarchicalMachine / LockedMachine / AsyncMachine (+ MarkupMachine), the
                  resolved `state_cls` / `event_cls` / `transition_cls` with their own family flags, the MRO names and
                  the constructor signature (parameter, repr(default));
+  * `overrides`  one row per function that replaces a method of Machine / State / Event / Transition in a predefined class
+                 or its resolved state / event / transition class: base parameters and its own (`inspect.signature`);
   * side tables used by other properties' models: `dynamic_methods` of State / NestedState / Transition,
     `MarkupMachine.state_attributes` / `transition_attributes`, the keys of `GraphMachine.style_attributes`.
 
@@ -65,6 +67,57 @@ def class_row(cls):
     }
 
 
+def _params(fn):
+    """[(name, repr(default) or '', kind)] without `self`; kind 0 named, 1 *args, 2 **kwargs"""
+    out = []
+    for n, prm in list(inspect.signature(fn).parameters.items())[1:]:
+        kind = 1 if prm.kind is inspect.Parameter.VAR_POSITIONAL else 2 if prm.kind is inspect.Parameter.VAR_KEYWORD else 0
+        out.append((n, '' if prm.default is inspect.Parameter.empty else repr(prm.default), kind))
+    return out
+
+
+def _plain_function(cls, name):
+    f = inspect.getattr_static(cls, name, None)
+    return f if inspect.isfunction(f) else None
+
+
+def override_rows(objects):
+    """one row per function that REPLACES a method of a base class (Machine / State / Event / Transition) in a
+    predefined machine class or in its resolved state_cls / event_cls / transition_cls: owner (the class of the MRO
+    whose body holds the function), method, base, the classes that have it in their MRO, the base method's
+    parameters and the override's.  Callers inside the library use the base method's parameter ORDER
+    (`add_transitions` → `add_transition(*entry)`, `_create_transition(*args)`, …), so an override whose
+    parameters drift from the base changes what a base configuration means."""
+    from transitions.core import Machine, State, Event, Transition
+    rows = {}
+    users = []
+    for name, cls in sorted(objects.items()):
+        users.append((Machine, cls))
+        users.append((State, cls.state_cls))
+        users.append((Event, cls.event_cls))
+        users.append((Transition, cls.transition_cls))
+    for base, cls in users:
+        if cls is base or not issubclass(cls, base):
+            continue
+        for meth in sorted(n for n in dir(base) if (n == '__init__' or not n.startswith('__')) and _plain_function(base, n)):
+            if meth == '__init__' and base is Machine:
+                continue        # the constructors are in the class table (`ctor`)
+            bf = _plain_function(base, meth)
+            # every class of the MRO that holds its own version (the outermost one is what callers reach; the
+            # inner ones are reached through super() calls)
+            for owner in cls.__mro__:
+                f = owner.__dict__.get(meth)
+                if owner is base or not inspect.isfunction(f) or not issubclass(owner, base):
+                    continue
+                key = (owner.__name__, meth, base.__name__)
+                row = rows.setdefault(key, {'owner': owner.__name__, 'method': meth, 'base': base.__name__,
+                                            'used_by': set(), 'base_params': _params(bf), 'params': _params(f)})
+                row['used_by'].add(cls.__name__)
+    for r in rows.values():
+        r['used_by'] = sorted(r['used_by'])
+    return [rows[k] for k in sorted(rows)]
+
+
 def live_table():
     """{'factory': [(tuple, ('cls', name) | ('valueError',) | ('otherError', type name))], 'classes': {name: row},
     'objects': {name: class}, 'side': {...}}"""
@@ -100,7 +153,7 @@ def live_table():
         'styleAttributeKeys': sorted('%s.%s' % (k, kk) for k, v in GraphMachine.style_attributes.items() for kk in v),
     }
     return {'factory': factory, 'classes': {n: class_row(c) for n, c in objects.items()}, 'objects': objects,
-            'side': side}
+            'side': side, 'overrides': override_rows(objects)}
 
 
 # ---------------------------------------------------------------------------------------------
@@ -151,6 +204,16 @@ def render(tab):
                         _s(r['name']), ', '.join(_b(x) for x in r['feat']), _b(r['markup']),
                         _kind_lean(r['state']), _kind_lean(r['event']), _kind_lean(r['trans']), _strs(r['mro']),
                         ', '.join('(%s, %s)' % (_s(a), _s(b)) for a, b in r['ctor'])))
+    o.append(',\n'.join(rows) + ']')
+    o += ['', '/-- every function that replaces a method of Machine / State / Event / Transition in a predefined class or in',
+          '    its resolved state / event / transition class, with the base method\'s parameters and its own -/',
+          'def overrides : List Override := [']
+    rows = []
+    for r in tab['overrides']:
+        rows.append('  { owner := %s, method := %s, base := %s, usedBy := %s,\n    baseParams := [%s],\n    params := [%s] }' % (
+            _s(r['owner']), _s(r['method']), _s(r['base']), _strs(r['used_by']),
+            ', '.join('⟨%s, %s, %d⟩' % (_s(a), _s(b), k) for a, b, k in r['base_params']),
+            ', '.join('⟨%s, %s, %d⟩' % (_s(a), _s(b), k) for a, b, k in r['params'])))
     o.append(',\n'.join(rows) + ']')
     for key in sorted(tab['side']):
         o += ['', 'def %s : List String := %s' % (key, _strs(tab['side'][key]))]
